@@ -620,8 +620,8 @@ func encodeUTF8AddrXtext(raw string) string {
 
 	for _, ch := range raw {
 		switch {
-		case ch >= '!' && ch <= '~' && ch != '+' && ch != '=':
-			// printable non-space US-ASCII except '+' and '='
+		case ch >= '!' && ch <= '~' && ch != '+' && ch != '=' && ch != '\\':
+			// printable non-space US-ASCII except '+', '=' and '\'
 			out.WriteRune(ch)
 		default:
 			out.WriteRune('\\')
@@ -641,8 +641,8 @@ func encodeUTF8AddrUnitext(raw string) string {
 
 	for _, ch := range raw {
 		switch {
-		case ch >= '!' && ch <= '~' && ch != '+' && ch != '=':
-			// printable non-space US-ASCII except '+' and '='
+		case ch >= '!' && ch <= '~' && ch != '+' && ch != '=' && ch != '\\':
+			// printable non-space US-ASCII except '+', '=' and '\'
 			out.WriteRune(ch)
 		case ch <= '\x7F':
 			// other ASCII: CTLs, space and specials
